@@ -121,8 +121,22 @@ func (p *parser) parseStatement() ast.Statement {
 			labelComments = p.comments.FetchAll()
 		}
 		p.scope.labels = append(p.scope.labels, label) // Push the label
+		p.scope.loopLabels = append(p.scope.loopLabels, false)
+		if p.token == token.FOR || p.token == token.WHILE || p.token == token.DO {
+			// this label and the labels directly in front of it belong to the iteration statement
+			for i := len(p.scope.labels) - 1; i >= len(p.scope.labels)-1-p.scope.labelRun; i-- {
+				p.scope.loopLabels[i] = true
+			}
+		}
+		if p.token == token.IDENTIFIER {
+			p.scope.labelRun++ // possibly another label
+		} else {
+			p.scope.labelRun = 0
+		}
 		statement := p.parseStatement()
+		p.scope.labelRun = 0
 		p.scope.labels = p.scope.labels[:len(p.scope.labels)-1] // Pop the label
+		p.scope.loopLabels = p.scope.loopLabels[:len(p.scope.loopLabels)-1]
 		exp := &ast.LabelledStatement{
 			Label:     identifier,
 			Colon:     colon,
@@ -873,7 +887,7 @@ func (p *parser) parseContinueStatement() ast.Statement {
 			p.error(idx, "Undefined label '%s'", identifier.Name)
 			return &ast.BadStatement{From: idx, To: identifier.Idx1()}
 		}
-		if !p.scope.inIteration {
+		if !p.scope.inIteration || !p.scope.hasLoopLabel(identifier.Name) {
 			goto illegal
 		}
 		p.semicolon()
